@@ -81,10 +81,12 @@ func gen(tier string) []proto.Item {
 				// irrelevant packets every millisecond for the whole run
 				s := mk()
 				cnt := total + 200
+				s.MaxSteps = 200000 + 20*cnt
 				s.Inject = []proto.Inject{{OnTTL: r[0], AnswerTTL: r[0], Form: form, From: evil, DelayUs: 100, Tag: "flood", Rewrite: []simnet.Perturb{{Field: "q.dst", Op: "+1"}}, Repeat: cnt, EveryUs: 1000}}
 				items = append(items, proto.Item{Scn: s, Class: cls + "/irrelevant-flood", Note: map[string]string{"extra": fmt.Sprint(cnt)}})
 				// only malformed packets
 				s = mk()
+				s.MaxSteps = 200000 + 20*cnt
 				s.Inject = []proto.Inject{{OnTTL: r[0], AnswerTTL: r[0], Form: form, From: evil, DelayUs: 100, Tag: "flood", Truncate: 11, Repeat: cnt, EveryUs: 1000}}
 				items = append(items, proto.Item{Scn: s, Class: cls + "/malformed-flood", Note: map[string]string{"extra": fmt.Sprint(cnt)}})
 				// a burst right at the deadline
